@@ -333,6 +333,19 @@ impl C13 {
                 if matches!(op, Op::Step(_)) {
                     total_ticks += ticks(&a.log.take());
                     let _ = b.log.take();
+                    // single steps that swallowed an error (e.g. an external interrupt), or that walked
+                    // into the OS halt routine (a later run() then repeats its loop), are not segments
+                    // of the execution one unbroken run() performs
+                    let halt_lo = lc3_ensemble::sim::_os_obj_file().symbol_table().and_then(|s| s.lookup_label("TRAP_HALT")).unwrap_or(0);
+                    if matches!(ra, Ok(OpRes::Drive(Err(_)))) || (halt_lo..halt_lo + 4).contains(&a.sim.pc) {
+                        unbroken_ok = false;
+                    }
+                    // state after the steps must agree as after any call
+                    if !self.observer_arm {
+                        if let Some((c, d)) = state_diff(&mut a, &mut b, &format!("after op #{i} {op:?}")) {
+                            fail!(i, c, d);
+                        }
+                    }
                 }
             }
         }
